@@ -160,6 +160,41 @@ class Ctx:
         shutil.rmtree(self.tmp, ignore_errors=True)
 
 
+def real_code_failure(ex):
+    """an exception that came out of the code under test (some frame of its traceback lies in the repository): a text
+    describing it; None for exceptions of the harness itself"""
+    tb, where = ex.__traceback__, None
+    root = os.path.join(os.path.realpath(REPO), '')
+    while tb is not None:
+        fn = os.path.realpath(tb.tb_frame.f_code.co_filename)
+        if fn.startswith(root):
+            where = (os.path.relpath(fn, root), tb.tb_lineno)
+        tb = tb.tb_next
+    if where is None:
+        return None
+    return 'the code under test raised %s at %s:%d: %s' % (type(ex).__name__, where[0], where[1], str(ex)[:160])
+
+
+def guarded(shape):
+    """decorator for per-case replay functions: an exception that escapes from the code under test while a case of the
+    family is replayed (the driver did not expect one there - on the unchanged tree none occurs) becomes the problem
+    text of that case, shaped like the function's normal result by `shape(text)`; harness errors still propagate"""
+    def deco(fn):
+        import functools
+
+        @functools.wraps(fn)
+        def wrapped(job):
+            try:
+                return fn(job)
+            except Exception as ex:          # noqa
+                msg = real_code_failure(ex)
+                if msg is None:
+                    raise
+                return shape(msg)
+        return wrapped
+    return deco
+
+
 def pmap(fn, items, procs=16, chunk=None):
     """Run fn over items in forked worker processes (real-code replays); order preserved."""
     items = list(items)
